@@ -56,7 +56,8 @@ class ExternalImportFilter:
     def _is_internal_import(self, i: Import) -> bool:
         importee = i.importee()
 
-        return importee.startswith(self._root_module_name)
+        prefix = self._root_module_name.rstrip(".")
+        return importee == prefix or importee.startswith(f"{prefix}.")
 
     def _is_internal_or_retained_external_import(self, i: Import) -> bool:
         if self._is_internal_import(i):
